@@ -129,7 +129,8 @@ Shapes == <<
   [Base EXCEPT !.inputs = <<dS>>, !.output = outS, !.r = TRUE, !.s = TRUE, !.filters = <<Exc(G_de)>>],  \* 54 sync: excluded files are copied
   [Base EXCEPT !.inputs = <<<<100, 47, 46>>>>, !.output = outS, !.r = TRUE],                    \* 55 d/. (README: same as d/) (known: slashdot)
   [Base EXCEPT !.inputs = <<d_>>, !.output = outS, !.r = TRUE, !.filters = <<Inc(G_cjs), Exc(<<100, 47, 42>>)>>],   \* 56 include then exclude d/*: the last match decides
-  [Base EXCEPT !.inputs = <<dot>>, !.output = outS, !.r = TRUE, !.a = TRUE, !.match = <<G_css>>, !.filters = <<Exc(<<100, 47, 42, 42>>)>>]  \* 57 --match and --exclude together
+  [Base EXCEPT !.inputs = <<dot>>, !.output = outS, !.r = TRUE, !.a = TRUE, !.match = <<G_css>>, !.filters = <<Exc(<<100, 47, 42, 42>>)>>],  \* 57 --match and --exclude together
+  [Base EXCEPT !.inputs = <<dS>>, !.output = dlS, !.r = TRUE, !.s = TRUE]                       \* 58 sync onto itself through a directory link (known: syncalias)
 >>
 
 Mk(S, k) == [tree |-> TreeOf(S), inv |-> Shapes[k]]
